@@ -342,6 +342,9 @@ func c08Scenarios() map[string]*sched.Scenario {
 	add("S5/sync+create/chain4", []int{-1}, c08Multi("chain4", []string{"sync", "create"}, "G", "N1"))
 	add("S7/real-trigger-truncate/chain", []int{-1}, c08Trigger(false))
 	add("S7/real-trigger-truncate/chain+shallow-side-tip", []int{-1}, c08Trigger(true))
+	add("S8/history+create/chain4", []int{-1}, c08Multi("chain4", []string{"history", "create"}))
+	add("S8/history+add/diamond", []int{-1}, c08Multi("diamond", []string{"history", "add"}))
+	add("S8/balance+create+add/chain4", []int{-1}, c08Multi("chain4", []string{"balance", "create", "add"}))
 	add("S6/stream-abandoned/chain6", []int{-1}, c08Single("stream-abandon", "chain6"))
 	add("S6/stream-abandoned+create/chain6", []int{-1}, c08Multi("chain6", []string{"stream-abandon", "create"}))
 	return m
@@ -379,7 +382,7 @@ func c08Main(args []string) int {
 		sc := scs[n]
 		p := pre
 		shards := 1
-		if strings.HasPrefix(n, "S3") || strings.HasPrefix(n, "S4") || strings.HasPrefix(n, "S5") {
+		if strings.HasPrefix(n, "S3") || strings.HasPrefix(n, "S4") || strings.HasPrefix(n, "S5") || strings.HasPrefix(n, "S8") {
 			shards = 8
 		}
 		if common.Tier() == "thorough" {
